@@ -22,7 +22,7 @@ theorem targets_strip (spec : ColSpec) (D : Frame) : targets (ColSpec.strip spec
 /-- the core checks never look at a parsing option -/
 theorem checks_ignore_parsing_options (T : ScopeTable) (d : Depth) (S : Schema) (X : Frame) :
     frameErrors T d (Schema.strip S) X = frameErrors T d S X := by
-  unfold frameErrors
+  unfold frameErrors coreCheckErrors
   have h0 : expandedNames (Schema.strip S) X = expandedNames S X := by
     unfold expandedNames Schema.strip
     simp [List.map_map, Function.comp_def, targets_strip]
@@ -41,17 +41,36 @@ theorem checks_ignore_parsing_options (T : ScopeTable) (d : Depth) (S : Schema) 
     apply List.map_congr_left
     intro c _
     rfl
-  rw [h1, h2, h3, h4]
-  congr 1
-  simp only [Schema.strip]
-  cases S.index <;> rfl
+  have h5 : indexPartErrors T d (Schema.strip S) X = indexPartErrors T d S X := by
+    unfold indexPartErrors
+    simp only [Schema.strip]
+    cases S.index <;> rfl
+  rw [h1, h2, h3, h4, h5]
 
-/-- **C03 (a)** whatever the lazy run returns without dropping rows satisfies the schema with all
-parsing options switched off (at any depth, for any scope table) -/
-theorem validate_ok_conforms (T : ScopeTable) (d : Depth) (S : Schema) (D D' : Frame)
+/-- recorded finding `K_C03_staleColumnInfo`: the strict / ordered test looks at the labels of the
+*input* frame (column information is collected before `add_missing_columns` runs), so when columns
+are added the result is not re-tested and may violate `ordered` / `strict` -/
+def K_C03_staleColumnInfo (S : Schema) (D P : Frame) : Prop :=
+  strictOrderedErrors S P ≠ strictOrderedErrors S D
+
+/-- **C03 (a)** whatever the lazy run returns without dropping rows satisfies every core check of the
+schema with all parsing options switched off (at any depth, for any scope table) … -/
+theorem validate_ok_core_checks (T : ScopeTable) (d : Depth) (S : Schema) (D D' : Frame)
     (hdrop : S.dropInvalid = false) (h : validateLazy T d S D = .ok D') :
-    frameErrors T d (Schema.strip S) D' = [] := by
-  rw [checks_ignore_parsing_options]
+    coreCheckErrors T d (Schema.strip S) D' = [] ∧ strictOrderedErrors S D = [] := by
+  have hc : coreCheckErrors T d (Schema.strip S) D' = coreCheckErrors T d S D' := by
+    have := checks_ignore_parsing_options T d S D'
+    unfold frameErrors at this
+    have h1 : strictOrderedErrors (Schema.strip S) D' = strictOrderedErrors S D' := by
+      have h0 : expandedNames (Schema.strip S) D' = expandedNames S D' := by
+        unfold expandedNames Schema.strip
+        simp [List.map_map, Function.comp_def, targets_strip]
+      unfold strictOrderedErrors
+      rw [h0]
+      cases hs : S.strict <;> simp [Schema.strip, hs] <;> rfl
+    rw [h1] at this
+    exact List.append_cancel_left this
+  rw [hc]
   unfold validateLazy at h
   split at h
   · cases h
@@ -62,8 +81,46 @@ theorem validate_ok_conforms (T : ScopeTable) (d : Depth) (S : Schema) (D D' : F
       simp only [ValidateOut.ok.injEq] at h
       subst h
       simp only [List.isEmpty_iff, List.append_eq_nil_iff] at he
-      exact he.2
+      exact ⟨he.2, he.1.2⟩
     · cases h
+
+/-- … and, outside the recorded region, the whole stripped schema (strict / ordered included) -/
+theorem validate_ok_conforms_partial (T : ScopeTable) (d : Depth) (S : Schema) (D D' : Frame)
+    (hdrop : S.dropInvalid = false) (h : validateLazy T d S D = .ok D')
+    (hK : ¬ K_C03_staleColumnInfo S D D') :
+    frameErrors T d (Schema.strip S) D' = [] := by
+  rw [checks_ignore_parsing_options]
+  have hc := validate_ok_core_checks T d S D D' hdrop h
+  have hcc : coreCheckErrors T d S D' = [] := by
+    have := checks_ignore_parsing_options T d S D'
+    unfold frameErrors at this
+    have h1 : strictOrderedErrors (Schema.strip S) D' = strictOrderedErrors S D' := by
+      have h0 : expandedNames (Schema.strip S) D' = expandedNames S D' := by
+        unfold expandedNames Schema.strip
+        simp [List.map_map, Function.comp_def, targets_strip]
+      unfold strictOrderedErrors
+      rw [h0]
+      cases hs : S.strict <;> simp [Schema.strip, hs] <;> rfl
+    rw [h1] at this
+    rw [← List.append_cancel_left this]; exact hc.1
+  unfold K_C03_staleColumnInfo at hK
+  simp only [ne_eq, Decidable.not_not] at hK
+  unfold frameErrors
+  rw [hK, hc.2, hcc]; rfl
+
+/-- the recorded region is inhabited: with `add_missing_columns` and `ordered=True` a column is
+inserted after one that the schema lists later; the result is returned although it is out of order -/
+theorem K_C03_staleColumnInfo_witness :
+    ∃ (S : Schema) (D D' : Frame),
+      validateLazy ⟨none, none, none, none, none, none, none, none, none, none⟩ .schemaAndData S D = .ok D'
+      ∧ frameErrors ⟨none, none, none, none, none, none, none, none, none, none⟩ .schemaAndData
+          (Schema.strip S) D' ≠ [] :=
+  ⟨{ columns := [{ name := some "b.*", regex := some (.seq (.chr 'b') (.star .any)), required := false },
+                 { name := some "a", dtype := some .int64, default := some (.int 1) }],
+     ordered := true, addMissing := true },
+   { cols := [⟨"b", .int64, [.int 5]⟩], index := [⟨none, .int64, [.int 0]⟩], nrows := 1 },
+   { cols := [⟨"a", .int64, [.int 1]⟩, ⟨"b", .int64, [.int 5]⟩], index := [⟨none, .int64, [.int 0]⟩], nrows := 1 },
+   by decide, by decide⟩
 
 /-- `strict='filter'` leaves no undeclared column behind -/
 theorem filter_keeps_only_declared (S : Schema) (D : Frame) (h : S.strict = .filter) :
